@@ -200,7 +200,18 @@ class StartupRun:
                     self.expected_events.append((tuple(tys), self.final_name(i, which, a["name"]), desc, True))
                 elif k == "await":
                     self.log("req", i, a["ty"], a["name"])
-                    v = await get_resource(TYPES[a["ty"]], a["name"])
+                    if a.get("inject"):
+                        # the same request made by calling an injected coroutine function (C19: equivalent to the
+                        # explicit lookup in the current context - which, for a component, waits)
+                        from asphalt.core import inject, resource
+
+                        async def needs(r: Any = resource(a["name"])) -> Any:
+                            return r
+
+                        needs.__annotations__ = {"r": TYPES[a["ty"]]}
+                        v = await inject(needs)()
+                    else:
+                        v = await get_resource(TYPES[a["ty"]], a["name"])
                     self.log("got", i, a["ty"], a["name"], val_str(v))
                 elif k == "awaitOpt":
                     v = await get_resource(TYPES[a["ty"]], a["name"], optional=True)
